@@ -28,7 +28,8 @@ func checkBudget(r *Run, prog *Program, a *Anchors, pfx string) {
 	}
 	r.Analysed(parseExpr.String())
 	r.Analysed(newParser.String())
-	budgetField := budgetFieldOf(maxExprOpt)
+	budgetField := budgetFieldOf(prog, maxExprOpt)
+	roleField, budgetFns := budgetOptionOf(prog, maxExprOpt)
 	// --- 2. one counter, one writer, one test
 	var cntWrites, cntReads, maxWrites, maxReads []FieldAccess
 	for _, fa := range fas {
@@ -153,7 +154,7 @@ func checkBudget(r *Run, prog *Program, a *Anchors, pfx string) {
 			ok = true
 		case ctorPart(prog, newParser, rd.Fn):
 			ok = true
-		case rd.Fn.Parent() == maxExprOpt:
+		case rd.Fn.Parent() == maxExprOpt || budgetFns[rd.Fn]:
 			ok = true
 		}
 		r.Check(pfx+".counter-census", where+":maxExprCnt:read", prog.pos(rd.Instr.Pos()), ok, "the budget is read outside parseExpr's comparison, newParser's zero test and the option's old-value read")
@@ -169,6 +170,10 @@ func checkBudget(r *Run, prog *Program, a *Anchors, pfx string) {
 					_, ok = ld.X.(*ssa.FreeVar)
 				}
 			}
+		case budgetFns[w.Fn]:
+			// a method of the setting type MaxExpressions returns bound: the effect analysis found it storing the
+			// constructor's own parameter
+			ok = budgetField != "" && budgetField == roleField
 		case ctorPart(prog, newParser, w.Fn):
 			if c, isC := w.Val.(*ssa.Const); isC && c.Value != nil {
 				if u, exact := constant.Uint64Val(c.Value); exact && u == ^uint64(0) {
@@ -319,7 +324,7 @@ func isCaptured(v ssa.Value) bool {
 }
 
 func checkBudgetTransport(r *Run, prog *Program, a *Anchors, newParser, maxExprOpt *ssa.Function, pfx string) {
-	budgetField := budgetFieldOf(maxExprOpt)
+	budgetField := budgetFieldOf(prog, maxExprOpt)
 	// WithMaxExpressions stores its parameter into options.withMaxExpressions (C18 checks all constructors; here the one field)
 	wme := prog.BexprSSA.Func("WithMaxExpressions")
 	okCtor := false
@@ -522,33 +527,34 @@ func init() {
 	})
 }
 
-// budgetFieldOf: the budget's field by its role: the parser field the function returned by MaxExpressions stores
-// MaxExpressions' own parameter into.
-func budgetFieldOf(maxExprOpt *ssa.Function) string {
-	budgetField := "maxExprCnt"
-	for _, af := range maxExprOpt.AnonFuncs {
-		for _, b := range af.Blocks {
-			for _, ins := range b.Instrs {
-				st, ok := ins.(*ssa.Store)
-				if !ok {
-					continue
-				}
-				fa, isFA := st.Addr.(*ssa.FieldAddr)
-				fv, isFV := st.Val.(*ssa.FreeVar)
-				if ld, isLd := st.Val.(*ssa.UnOp); isLd && !isFV {
-					fv, isFV = ld.X.(*ssa.FreeVar) // captured by reference
-				}
-				if isFA && isFV && len(maxExprOpt.Params) == 1 && fv.Name() == maxExprOpt.Params[0].Name() {
-					if pt, ok := fa.X.Type().Underlying().(*types.Pointer); ok && namedIs(pt.Elem(), grammarPath, "parser") {
-						budgetField = fieldName(fa.X.Type(), fa.Field)
-					}
+// budgetOptionOf: the budget's field by its role — the parser field into which the function returned by MaxExpressions (a
+// closure, or a bound method of a small setting type) stores MaxExpressions' own parameter, unmodified — and the
+// functions that run when that option is applied.
+func budgetOptionOf(prog *Program, maxExprOpt *ssa.Function) (string, map[*ssa.Function]bool) {
+	fns := map[*ssa.Function]bool{}
+	field := ""
+	for _, op := range optionEffect(prog, maxExprOpt) {
+		if op.opaque {
+			continue
+		}
+		for _, ev := range op.sm.Events() {
+			if ev.Store && ev.In != nil && ev.In != maxExprOpt && ev.Args[0].K == sFieldAddr && ev.Args[0].A != nil && ev.Args[0].A.K == sOpaque {
+				fns[ev.In] = true
+				if ownParameter(op.sm.St, ev.Args[1], 0) {
+					field = ev.Args[0].Str
 				}
 			}
 		}
 	}
-	return budgetField
+	return field, fns
 }
 
+func budgetFieldOf(prog *Program, maxExprOpt *ssa.Function) string {
+	if f, _ := budgetOptionOf(prog, maxExprOpt); f != "" {
+		return f
+	}
+	return "maxExprCnt"
+}
 // onlyEnteredFrom: fn is an unexported function of the module that is itself only entered (statically or through an
 // interface) from the allowed functions, or from functions of which the same holds (bounded).
 func onlyEnteredFrom(prog *Program, fn *ssa.Function, allowed map[string]bool, depth int) bool {
